@@ -30,30 +30,88 @@ Q = {
 }
 CONFIG = b'class CfgIso { v = 7; };'
 
+# feature programs: each one both changes and observes one kind of per-VM state; every feature is used as P and as Q (F x F pairs)
+F = {
+    'f.format': (b'trace__ [format ["%1 %2 %3", 1.5, "a", [1e7, -0.5]], str "q""x", toArray "ab", toString [65, 66], [1, 2, 3] joinString ",", str 1e-7, str 123456789, parseNumber "1.5"];', 0),
+    'f.ns': (b'trace__ [isNil {uiNamespace getVariable "isou"}, isNil {parsingNamespace getVariable "isou"}, isNil {profileNamespace getVariable "isou"}, isNil "isom", count allVariables missionNamespace, count allVariables uiNamespace];'
+             b' uiNamespace setVariable ["isou", 1]; parsingNamespace setVariable ["isou", 2]; profileNamespace setVariable ["isou", 3]; isom = 4; with uiNamespace do { isow = 5; };', 0),
+    'f.macro': (b'#ifdef ISO_M\ntrace__ ["defined", ISO_M(1)];\n#endif\n#define ISO_M(x) (x + 1)\ntrace__ [ISO_M(2), __LINE__];\n#define ISO_N 5\ntrace__ [ISO_N];\n', 1),
+    'f.macro2': (b'#ifdef ISO_N\ntrace__ ["defined"];\n#endif\n#define ISO_M(x) (x * 7)\n#define ISO_N ISO_M(3)\ntrace__ [ISO_N, __LINE__];\n', 1),
+    'f.spawn': (b'private _h = [] spawn { isos = 1; }; private _g = [] spawn { sleep 100; }; trace__ [str _h, str _g, scriptDone _h, isNil "isos"]; terminate _g;', 0),
+    'f.hashmap': (b'private _m = createHashMapFromArray [["a", 1], [2, "b"], [[1, "x"], true], [false, []]]; _m set ["k", 3]; trace__ [keys _m, values _m, str _m, _m get "a", _m getOrDefault ["zz", -1], count _m];', 0),
+    'f.err.rt': (b'trace__ 1; private _r = [] select 5; trace__ 2;', 0),
+    'f.err.compile': (b'trace__ 1; private _c = compile "1 + + ]"; trace__ [isNil "_c"]; private _d = compile "isoq = 1 +"; trace__ 3;', 0),
+    'f.err.undef': (b'trace__ 1; private _u = isoundef + 1; trace__ 2;', 0),
+    'f.err.type': (b'trace__ 1; "a" + 1; trace__ 2;', 0),
+    'f.err.catch': (b'try { trace__ 1; throw "isoex"; } catch { trace__ [_exception]; }; { trace__ 2; [] select 7; trace__ 22; } except__ { trace__ ["h", _exception]; }; trace__ 3;', 0),
+    'f.parse': (b'trace__ [str {1 + 2 * 3; a = [1, 2] select 0}, str compile "private _q = {_x} forEach [1]", str (parseSimpleArray "[1,""a"",[2]]"), str {if (a) then {b} else {c}}];', 0),
+    'f.text': (b'trace__ [str parseText "a<br/>b", str text "x", str composeText ["a", lineBreak, "b"], str lineBreak];', 0),
+    'f.asm': (b'trace__ [assembly__ {1 + 1; private _a = [2]}, assembly__ "a = 1"];', 0),
+    'f.cfgown': (b'trace__ [count configFile, configName (configFile >> "IsoA"), str inheritsFrom (configFile >> "IsoB"), getNumber (configFile >> "IsoB" >> "x"), getArray (configFile >> "IsoB" >> "arr"), str configHierarchy (configFile >> "IsoB" >> "Inner"), '
+                 b'isClass (configFile >> "CfgIso"), "true" configClasses configFile apply {configName _x}];', 0, b'class IsoA { x = 1; arr[] = {1, "b", {2}}; }; class IsoB : IsoA { class Inner { y = "s"; }; };'),
+    'f.cfgown2': (b'trace__ [count configFile, "true" configClasses configFile apply {configName _x}, getNumber (configFile >> "IsoA" >> "x"), getText (configFile >> "IsoB" >> "t"), isClass (configFile >> "IsoB" >> "Inner")];', 0,
+                  b'class IsoB { t = "other"; }; class IsoA : IsoB { x = 9; }; class CfgIso { w = 1; };'),
+    'f.vars': (b'private _c = {isoc = (if (isNil "isoc") then {0} else {isoc}) + 1; isoc}; trace__ [call _c, call _c, missionNamespace getVariable ["isoc", -1], allVariables missionNamespace];', 0),
+    'f.types': (b'trace__ [typeName 1, typeName "", typeName [], typeName {}, typeName true, typeName createHashMap, typeName missionNamespace, typeName configFile, typeName text "", typeName ([] spawn {}), typeName (if true), typeName (for "_i"), typeName (switch 1), typeName (while {true}), typeName nil, 1 isEqualType 2, [] isEqualType createHashMap, "" isEqualTypeAny [1, ""]];', 0),
+    'f.sqfvm': (b'trace__ [count cmds__, count (cmdsimplemented__)]; help__ "select";', 0),
+    'f.pp.err': (b'#define ISO_E(a,b) a b\ntrace__ [1];\nISO_E(1)\n#include "isonotthere.hpp"\ntrace__ [2];\n', 1),
+}
+
+def entry(tab, n):
+    e = tab[n] if n in tab else F[n]
+    text, pp = e[0], e[1]
+    ops = e[2] if tab is Q and n in Q else vmh.OPS_DEFAULT
+    cfg = e[2] if n in F and len(e) > 2 else None
+    return text, pp, ops, cfg
+
 def iso_case(h, pn, qn):
     def case():
         if qn != 'none':
-            text, pp, ops = Q[qn]
+            text, pp, ops, cfg = entry(Q, qn)
             vq = h.new_vm(ops)
+            if cfg: h.parse_config(vq, cfg)
             if text == b'CONFIG': h.parse_config(vq, CONFIG)
             else: h.run(vq, text, pp)
             if C01.choose('destroy', 2) == 1: h.N['w_vm_delete'](vq)
         h.reset_obs()
         vm = h.new_vm()
-        text, pp = P[pn]
+        text, pp, _, cfg = entry(P, pn)
+        if cfg: h.parse_config(vm, cfg)
         r = h.run(vm, text, pp)
         out = dict(result=r, traces=json.loads(json.dumps(h.traces, default=str)), logs=[(l[0], l[2]) for l in h.logs])
         return dict(text='P=%s after Q=%s' % (pn, qn), p=pn, q=qn, out=out, n=1)
     return case
 
 def replay(spec):
-    return None, 'no native replay'
+    """native: P alone in one process, Q then P (two instances) in another; reproduced iff P's printed output differs"""
+    import native
+    if spec.get('op') != 'iso': return None, 'no native replay'
+    import vmreplay; exe = vmreplay.exe() if hasattr(vmreplay, 'exe') else native.build('replay_vm', vmh.VM_SOURCES + ['operators/object.cpp', 'operators/group.cpp', '/verif/harness/replay_vm.cpp'])
+    hx = lambda b: b.hex() if b else '-'
+    pt, ppp, _, pcfg = entry(P, spec['p'])
+    qt, qpp, qops, qcfg = entry(Q, spec['q'])
+    if qt == b'CONFIG': qt, qcfg = None, CONFIG
+    outs = []
+    for q in (False, True):
+        a = ['iso', str(qops), str(qpp), hx(qt) if q else '-', hx(qcfg) if q else '-', str(spec.get('destroy', 0)), str(ppp), hx(pt), hx(pcfg)]
+        rc, out, err = native.run(exe, a, timeout=60)
+        bad, what = native.classify(rc, out, err)
+        if bad: return True, 'native run crashed: ' + what
+        outs.append(out.split('P-BEGIN\n', 1)[-1])
+    if outs[0] != outs[1]:
+        import difflib
+        d = [l for l in difflib.unified_diff(outs[0].split('\n'), outs[1].split('\n'), lineterm='', n=0) if not l.startswith(('---', '+++', '@@'))]
+        return True, 'native: output of P alone and after Q differ: ' + ' | '.join(d)[:300]
+    return False, 'native outputs identical'
 
 def run(ctx):
     h = vmh.load()
     funcs = sorted(n for n in h.m.DEFINED if ('d_scalar' in n or 'counter' in n or 'tofixed' in n or 'cmds__' in n or '4type' in n) and len(n) < 120)
     cases = [('%s|%s' % (pn, qn), iso_case(h, pn, qn)) for pn in P for qn in Q]
-    r = oblig.run('iso.after', cases, ctx, funcs, '%d programs P x %d predecessors Q (incl. none), Q executed in another VM instance of the same process image which is then destroyed or kept alive (symbolic choice)' % (len(P), len(Q)),
+    fq = list(F) if ctx.get('tier') == 'thorough' or True else []
+    cases += [('%s|%s' % (pn, qn), iso_case(h, pn, qn)) for pn in F for qn in ['none'] + list(Q)[1:] + fq]      # feature programs after every Q and after every feature program
+    cases += [('%s|%s' % (pn, qn), iso_case(h, pn, qn)) for pn in P for qn in F]
+    r = oblig.run('iso.after', cases, ctx, funcs, '%d programs P x %d predecessors Q (incl. none; the 20 feature programs - formatting, four namespaces, macro tables, script handles, hashmaps, error / parse / preprocessor diagnostics, code printing, text, assembly, own config trees, counters in variables, type names, registry listings - serve as P and as Q), Q executed in another VM instance of the same process image which is then destroyed or kept alive (symbolic choice)' % (len(P) + len(F), len(Q) + len(F)),
                   assumptions=['instances run one after another in one thread (concurrent instances are not applicable)', 'allocation failure is out of scope'], case_timeout=900, step_limit=600_000_000,
                   sample_fn=lambda rr: dict(case=rr.get('text'), outputs=str(rr.get('out'))[:200]) if rr.get('text') else None)
     if not r: return []
@@ -67,7 +125,7 @@ def run(ctx):
         b = base.get(rr['p'])
         if b is None: continue
         if rr['out'] != b:
-            viols.append(dict(kind='assert', key='iso.after:P=%s:Q=%s' % (rr['p'], rr['q']), case=rr['case'], inputs=rr.get('inputs'), trust_without_replay=True,
+            viols.append(dict(kind='assert', key='iso.after:P=%s:Q=%s' % (rr['p'], rr['q']), case=rr['case'], inputs=rr.get('inputs'), replay=dict(kind='vm', op='iso', p=rr['p'], q=rr['q'], destroy=0),
                               msg='output of P=%s in a fresh VM differs after another instance ran Q=%s: %s vs alone %s' % (rr['p'], rr['q'], str(rr['out'])[:160], str(b)[:160])))
     seen = set(); uniq = []
     for v in viols:
